@@ -227,6 +227,16 @@ class _Ctl(frozenset):
     """control-stack entry; .loop = True when it only lasts until the end of the current loop iteration"""
     loop = False
     brk = False
+    empt = False      # the test only asks whether a value is the empty placeholder (isinstance(x, EmptyExplainableObject))
+
+
+def _emptiness_test(t):
+    if isinstance(t, ast.UnaryOp) and isinstance(t.op, ast.Not):
+        return _emptiness_test(t.operand)
+    if isinstance(t, ast.BoolOp):
+        return all(_emptiness_test(v) for v in t.values)
+    return isinstance(t, ast.Call) and isinstance(t.func, ast.Name) and t.func.id == "isinstance" and len(t.args) == 2 \
+        and any(isinstance(x, ast.Name) and x.id == "EmptyExplainableObject" for x in ast.walk(t.args[1]))
 
 
 class _Taint(set):
@@ -288,7 +298,7 @@ def join(vs):
         # a parentless empty placeholder (`EmptyExplainableObject()` returned when there is nothing to compute) is not an
         # alternative of its own: as before, it is only required that the recorded ancestors of the value as a whole
         # cover what decided that there was nothing to compute
-        real = [v for v in vs if not (set(v.ek or ()) == {"EMPTY"} and not v.anc)] or vs
+        real = [v for v in vs if not (set(v.ek or ()) == {"EMPTY"} and not v.anc and not _value_decided(v))] or vs
         for v in real:
             alts += alts_of(v)
         alts = tuple(dict.fromkeys(alts))
@@ -297,6 +307,14 @@ def join(vs):
 
 
 JOIN_KEEPS_ALTS = True
+
+
+def _value_decided(v):
+    """the placeholder was chosen by looking at an explainable *value* (a duration that is zero, a series that is empty):
+    that value decides the result and must be among its ancestors, on this path too"""
+    # (a test for the empty placeholder itself — `isinstance(x, EmptyExplainableObject)` — is not such a look: an empty
+    # operand has no value to propagate, and the placeholder only exists until the first computation)
+    return any(len(r) == 4 and r[3] == "c" for r in v.deps)
 
 
 MAX_ALTS = 16
@@ -381,6 +399,7 @@ class Cx:
         self.links = set()       # (class, link attr) forward; (class, '<containers>') backward
         self.reads = set()       # refs
         self.inplace = []        # (node, func, method, receiver V)
+        self.unitconv = []       # (node, func, method, V converted to another unit in place)
         self.frame_stores = []   # (node, func, receiver V)
         self.calls = []          # (func qualname) inlined
         self.unknown = []
@@ -394,7 +413,7 @@ class Cx:
         construction sites are checked on data dependencies only, write sites on both"""
         if not self.ctl:
             return F()
-        return F((r[0], r[1], r[2], "c") for s in self.ctl for r in s)
+        return F((r[0], r[1], r[2], "e" if getattr(s, "empt", False) else "c") for s in self.ctl for r in s)
 
     def tainted(self):
         out = set()
@@ -982,6 +1001,23 @@ class Interp:
             return self.call_on_value(b, f.attr, e, args, kw, alld, env, cx)
         return raw(alld, deg={})
 
+    def arg_unit_converters(self):
+        """{method of a value class: positions of the arguments it converts to another unit in place (`arg.to(unit)`)}"""
+        if getattr(self, "_auc", None) is None:
+            self._auc = {}
+            for cn, ci in self.pm.classes.items():
+                if not ci.path.endswith(("explainable_objects.py", "explainable_object_base_class.py")):
+                    continue
+                for m in [x for x in ci.node.body if isinstance(x, ast.FunctionDef)]:
+                    ps = [a.arg for a in m.args.args[1:]]
+                    rebound = {t.id for a in ast.walk(m) if isinstance(a, ast.Assign) for t in a.targets if isinstance(t, ast.Name)}
+                    for c in ast.walk(m):
+                        if isinstance(c, ast.Call) and isinstance(c.func, ast.Attribute) and c.func.attr == "to" \
+                                and isinstance(c.func.value, ast.Name) and c.func.value.id in ps \
+                                and c.func.value.id not in rebound:
+                            self._auc.setdefault(m.name, set()).add(ps.index(c.func.value.id))
+        return self._auc
+
     def call_on_value(self, b, name, e, args, kw, alld, env, cx):
         a0 = args[0] if args else None
         where = cx.where()
@@ -995,7 +1031,11 @@ class Interp:
                 if s["inplace"] in ("value", "value-EQ"):
                     cx.inplace.append((e, where, name, b))
                 if name == "to":
+                    cx.unitconv.append((e, where, "to", b))
                     return b
+                for i in self.arg_unit_converters().get(name, ()):
+                    if i < len(args) and args[i].k == "E":
+                        cx.unitconv.append((e, where, name, args[i]))
                 if name == "set_label":
                     lab = e.args[0] if e.args else None
                     nonempty = not (isinstance(lab, ast.Constant) and not lab.value)
@@ -1663,6 +1703,7 @@ class Interp:
                     tk = {k for k, d in (self._test_deg(s.test, env, cx) or {}).items() if d != 0}
                 lc, lt = len(cx.ctl), len(cx.taint)
                 ce, te = _Ctl(t.deps), _Taint(tk)
+                ce.empt = _emptiness_test(s.test)
                 cx.ctl.append(ce)
                 cx.taint.append(te)
                 e1, e2 = dict(env), dict(env)
